@@ -1,0 +1,172 @@
+//! Scripted-heap driver for exhaustive exploration of the collector.
+//! Only compiled with the `verif` feature; adds no logic to the collector.
+use std::cell::{Cell, RefCell};
+use std::rc::Rc;
+
+use super::{Gc, GcContext, GcTrace, GcTraceCtx, GcView};
+
+pub struct Node {
+    id: usize,
+    edges: RefCell<Vec<Gc<Node>>>,
+    dropped: Rc<Cell<bool>>,
+}
+
+impl Drop for Node {
+    fn drop(&mut self) {
+        self.dropped.set(true);
+    }
+}
+
+impl GcTrace for Node {
+    fn trace<'a>(&self, ctx: &mut impl GcTraceCtx<'a>)
+    where
+        Self: 'a,
+    {
+        self.edges.trace(ctx);
+    }
+}
+
+pub struct Heap {
+    ctx: GcContext<'static>,
+    dropped: Vec<Rc<Cell<bool>>>,
+    handles: Vec<Vec<Gc<Node>>>,
+    views: Vec<Vec<GcView<Node>>>,
+}
+
+impl Default for Heap {
+    fn default() -> Self {
+        Self::new()
+    }
+}
+
+impl Heap {
+    pub fn new() -> Self {
+        Self {
+            ctx: GcContext::new(),
+            dropped: Vec::new(),
+            handles: Vec::new(),
+            views: Vec::new(),
+        }
+    }
+
+    fn new_node(&mut self) -> Node {
+        let id = self.dropped.len();
+        let flag = Rc::new(Cell::new(false));
+        self.dropped.push(flag.clone());
+        self.handles.push(Vec::new());
+        self.views.push(Vec::new());
+        Node {
+            id,
+            edges: RefCell::new(Vec::new()),
+            dropped: flag,
+        }
+    }
+
+    /// Allocates a node held by one external weak handle.
+    pub fn alloc(&mut self) -> usize {
+        let node = self.new_node();
+        let id = node.id;
+        let h = self.ctx.alloc(node);
+        self.handles[id].push(h);
+        id
+    }
+
+    /// Allocates a node held by one external view.
+    pub fn alloc_view(&mut self) -> usize {
+        let node = self.new_node();
+        let id = node.id;
+        let v = self.ctx.alloc_view(node);
+        self.views[id].push(v);
+        id
+    }
+
+    fn any_handle(&self, id: usize) -> Option<Gc<Node>> {
+        if let Some(h) = self.handles[id].first() {
+            Some(h.clone())
+        } else {
+            self.views[id].first().map(Gc::from)
+        }
+    }
+
+    pub fn is_live(&self, id: usize) -> bool {
+        !self.dropped[id].get()
+    }
+
+    /// Adds an in-heap reference `from -> to`. Both must be externally reachable.
+    pub fn add_edge(&mut self, from: usize, to: usize) -> bool {
+        let (Some(f), Some(t)) = (self.any_handle(from), self.any_handle(to)) else {
+            return false;
+        };
+        f.view().edges.borrow_mut().push(t);
+        true
+    }
+
+    pub fn del_edge(&mut self, from: usize, index: usize) -> bool {
+        let Some(f) = self.any_handle(from) else {
+            return false;
+        };
+        let f = f.view();
+        let mut edges = f.edges.borrow_mut();
+        if index < edges.len() {
+            edges.remove(index);
+            true
+        } else {
+            false
+        }
+    }
+
+    pub fn clone_handle(&mut self, id: usize) -> bool {
+        let Some(h) = self.any_handle(id) else {
+            return false;
+        };
+        self.handles[id].push(h);
+        true
+    }
+
+    pub fn drop_handle(&mut self, id: usize) -> bool {
+        self.handles[id].pop().is_some()
+    }
+
+    pub fn view_from_handle(&mut self, id: usize) -> bool {
+        let Some(h) = self.handles[id].first() else {
+            return false;
+        };
+        let v = h.view();
+        self.views[id].push(v);
+        true
+    }
+
+    pub fn drop_view(&mut self, id: usize) -> bool {
+        self.views[id].pop().is_some()
+    }
+
+    pub fn gc(&mut self) {
+        self.ctx.gc();
+    }
+
+    pub fn num_objects(&self) -> usize {
+        self.ctx.num_objects()
+    }
+
+    pub fn live_ids(&self) -> Vec<usize> {
+        (0..self.dropped.len()).filter(|&i| self.is_live(i)).collect()
+    }
+
+    /// Targets (ids) of the edges of a live node reachable through an external handle.
+    pub fn edges_of(&self, id: usize) -> Option<Vec<usize>> {
+        let h = self.any_handle(id)?;
+        let v = h.view();
+        let edges = v.edges.borrow();
+        Some(edges.iter().map(|e| e.view().id).collect())
+    }
+
+    /// `(visits, mark)` of every box, in the collector's internal order.
+    pub fn box_flags(&self) -> Vec<(usize, bool)> {
+        let inner = self.ctx.inner.borrow();
+        inner
+            .objs
+            .iter()
+            .map(|o| (o.visits.get(), o.mark.get()))
+            .collect()
+    }
+}
